@@ -447,7 +447,11 @@ struct Recorder {
       if (c->isFixed(i)) continue;
       long long cx2 = 2LL * c->cellX_[i] + c->placedWidth(i), cy2 = 2LL * c->cellY_[i] + c->placedHeight(i);
       long long ex = std::max(2LL * area.minX - cx2, cx2 - 2LL * area.maxX), ey = std::max(2LL * area.minY - cy2, cy2 - 2LL * area.maxY);   // excess, half units
-      if (ex > slackX2 || ey > slackY2) {
+      // the bound PROVED for the composed model (c06_ub_exposed_centres_inside_rows_bbox): the half unit of std::round for an ODD placed
+      // size, nothing for an even one -- per cell and per axis (attained: c06_half_unit_slack_attained_in_range)
+      const int sx = (int)(c->placedWidth(i) & 1), sy = (int)(c->placedHeight(i) & 1);
+      (void)slackX2; (void)slackY2;
+      if (ex > sx || ey > sy) {
         if (viol.empty()) {
           std::ostringstream s; s << "OUTSIDE step " << (int)st << " cb " << ncb << " cell " << i << " area " << c->area(i) << " centre2 " << cx2 << " " << cy2 << " rows " << area.minX << " " << area.maxX << " " << area.minY << " " << area.maxY;
           viol = s.str();
